@@ -296,6 +296,26 @@ def facts_before(f, var, line):
     facts = set()
     aliases = _len_aliases(f)
 
+    def pos_atoms(c):
+        """Atoms that hold when condition c is TRUE: conjunctions of single comparisons of var with 0 / len(self)."""
+        out = set()
+        if isinstance(c, ast.BoolOp) and isinstance(c.op, ast.And):
+            for v in c.values:
+                out |= pos_atoms(v)
+            return out
+        if isinstance(c, ast.Compare) and len(c.ops) == 1:
+            a, op, b = c.left, c.ops[0], c.comparators[0]
+            isv = lambda e: isinstance(e, ast.Name) and e.id == var
+            if isv(b) and G.is_zero(a) and isinstance(op, ast.LtE) or isv(a) and G.is_zero(b) and isinstance(op, ast.GtE):
+                out.add('ge0')
+            if isv(b) and G.is_zero(a) and isinstance(op, ast.Lt) or isv(a) and G.is_zero(b) and isinstance(op, ast.Gt):
+                out |= {'gt0', 'ge0', 'ne0'}
+            if isv(a) and _is_len_self(b, aliases) and isinstance(op, ast.LtE) or isv(b) and _is_len_self(a, aliases) and isinstance(op, ast.GtE):
+                out.add('le_len')
+            if isv(a) and _is_len_self(b, aliases) and isinstance(op, ast.Lt) or isv(b) and _is_len_self(a, aliases) and isinstance(op, ast.Gt):
+                out |= {'lt_len', 'le_len'}
+        return out
+
     def neg_atoms(t):
         """Atoms that hold when test t is FALSE (the guard raised/returned when t was true)."""
         out = set()
@@ -316,6 +336,7 @@ def facts_before(f, var, line):
                 o = d.operand
                 if isinstance(o, ast.Name) and o.id == var:
                     out.add('ne0')
+                out |= pos_atoms(o)
                 if isinstance(o, ast.Compare) and len(o.ops) == 2 and G.is_zero(o.left) and isinstance(o.comparators[0], ast.Name) \
                         and o.comparators[0].id == var and _is_len_self(o.comparators[1], aliases):
                     lo, hi = o.ops
@@ -365,10 +386,27 @@ def facts_before(f, var, line):
     return facts
 
 
+def _merge_chain(t):
+    """`a <= b and b <= c` written as the chain `a <= b <= c` (the form the reason table uses); anything else unchanged."""
+    if isinstance(t, ast.BoolOp) and isinstance(t.op, ast.And) and len(t.values) == 2 and all(isinstance(v, ast.Compare) and len(v.ops) == 1 for v in t.values):
+        a, b = t.values
+        if ast.dump(a.comparators[0]) == ast.dump(b.left) and isinstance(b.left, (ast.Name, ast.Constant)):
+            return ast.Compare(left=a.left, ops=[a.ops[0], b.ops[0]], comparators=[a.comparators[0], b.comparators[0]])
+    return t
+
+
 def _assert_needs(test, params):
     """Translate an assert on helper parameters into {param: set of needed facts}; None if not of a known shape."""
     needs = {}
     t = test
+    if isinstance(t, ast.BoolOp) and isinstance(t.op, ast.And):
+        for v in t.values:
+            sub = _assert_needs(v, params)
+            if sub is None:
+                return None
+            for k, w in sub.items():
+                needs.setdefault(k, set()).update(w)
+        return needs
     if isinstance(t, ast.Compare):
         ops, vals = t.ops, [t.left] + t.comparators
         for i, op in enumerate(ops):
@@ -435,7 +473,7 @@ def rule_N1(ctx):
             callers.setdefault(c[0], []).append((n, cs))
     used = set()
     for f, a in sites:
-        txt = norm(a.test)
+        txt = norm(_merge_chain(a.test))
         fk = ctx.rk(f.key)
         is_gen = any(isinstance(y, (ast.Yield, ast.YieldFrom)) for y in own_walk(f.node))
         if is_gen and 'options.' in txt:
@@ -443,9 +481,10 @@ def rule_N1(ctx):
             r.fail(f.key, f'assert {txt}', 'this assertion about a module option sits in a generator: the option can be changed between the call '
                    'that created the generator and its consumption, and the user then sees AssertionError', loc=f.loc(a))
             continue
-        if (fk, txt) in N1_REASONS:
-            used.add((fk, txt))
-            r.ok(f'{f.key}: {txt}', reason=True, sample={'instance': f.key, 'assert': txt, 'reason': N1_REASONS[(fk, txt)]})
+        rk = _rmatch(ctx, N1_REASONS, fk, txt, f)
+        if rk is not None:
+            used.add(rk)
+            r.ok(f'{f.key}: {txt}', reason=True, sample={'instance': f.key, 'assert': txt, 'reason': N1_REASONS[rk]})
             continue
         params = f.params()
         needs = _assert_needs(a.test, params)
@@ -460,7 +499,7 @@ def rule_N1(ctx):
             g = m.funcs[cn[0]]
             if not isinstance(cs.node, ast.Call):
                 continue
-            if (ctx.rk(f.key), f'{txt}@{ctx.rk(g.key)}') in N1_REASONS:
+            if _rmatch(ctx, N1_REASONS, ctx.rk(f.key), f'{txt}@{ctx.rk(g.key)}', f) is not None:
                 continue
             n_sites += 1
             # map parameters to argument expressions (skip self)
@@ -559,8 +598,9 @@ def rule_N2(ctx):
                 if arr_ok:
                     r.ok(f'{f.key}:{norm(node)}', reason=True)
                     continue
-            if (ctx.rk(f.key), dt) in N2_REASONS:
-                r.ok(f'{f.key}:{norm(node)}', reason=True, sample={'instance': f.key, 'divisor': dt, 'reason': N2_REASONS[(ctx.rk(f.key), dt)]})
+            rk = _rmatch(ctx, N2_REASONS, ctx.rk(f.key), dt, f)
+            if rk is not None:
+                r.ok(f'{f.key}:{norm(node)}', reason=True, sample={'instance': f.key, 'divisor': dt, 'reason': N2_REASONS[rk]})
                 continue
             r.fail(f.key, f'{norm(node)}', f"the divisor '{dt}' can be zero on some path (no dominating guard, not a non-zero constant, no reviewed reason): "
                    'ZeroDivisionError reaches the caller', loc=f.loc(node))
@@ -686,16 +726,21 @@ def rule_N5(ctx):
                 if isinstance(t, ast.Try) and any(x is y for b in t.body for y in ast.walk(b)):
                     if any(G.handler_names(h) & {'KeyError', 'LookupError', 'Exception', '*'} for h in t.handlers):
                         guarded = True
-                if isinstance(t, ast.If) and any(x is y for b in t.body for y in ast.walk(b)):
-                    tt = ast.unparse(t.test)
-                    if f'{ast.unparse(x.slice)} in {ast.unparse(base)}' in tt:
+                if isinstance(t, ast.If):
+                    pt, pbody, pelse = G.pos_if(t)
+                    tt = ast.unparse(pt)
+                    if f'{ast.unparse(x.slice)} in {ast.unparse(base)}' in tt and any(x is y for b in pbody for y in ast.walk(b)):
+                        guarded = True
+                    # `if key not in table: raise` before the lookup (the positive branch is everything after it)
+                    if f'{ast.unparse(x.slice)} in {ast.unparse(base)}' in tt and G.exits(pelse) and not pbody and t.lineno < x.lineno \
+                            and any(t is st for st in G.body_wo_doc(f)):
                         guarded = True
                 if isinstance(t, (ast.For, ast.comprehension)) and ast.unparse(t.target) == ast.unparse(x.slice) and \
                         ast.unparse(t.iter) in (ast.unparse(base), ast.unparse(base) + '.keys()'):
                     guarded = True       # the key iterates over the table itself
             if guarded:
                 r.ok(f'{f.key}:{key}', {'instance': f.key, 'lookup': key, 'verdict': 'membership test / KeyError handler'})
-            elif (ctx.rk(f.key), key) in N5_REASONS:
+            elif _rmatch(ctx, N5_REASONS, ctx.rk(f.key), key, f) is not None:
                 r.ok(f'{f.key}:{key}', reason=True)
             else:
                 r.fail(f.key, key, 'a table is indexed by a run-time key with no membership test, no KeyError handler and no reviewed reason: an '
@@ -749,6 +794,20 @@ def rule_D5(ctx):
     if n < 6:
         raise AnalysisError(f'only {n} next()/struct.pack sites found (floor 6)')
     return r
+
+
+def _rmatch(ctx, table, fk, txt, f=None):
+    from ..reasons import match
+    keep = getattr(ctx, '_global_names', None)
+    if keep is None:
+        keep = set(ctx.m.classes)
+        for mod, g in ctx.m.modglobals.items():
+            keep |= set(g)
+        for mod, g in ctx.m.modfuncs.items():
+            keep |= set(g)
+        keep |= set(ctx.m.mods) | {'utils', 'bitstore_helpers', 'dtype_register', 'math', 'struct', 're', 'sys', 'os', 'functools'}
+        ctx._global_names = keep
+    return match(table, fk, txt, keep | set(f.params()) if f is not None else keep, src=ast.unparse(f.node) if f is not None else None)
 
 
 def rule_RNG(ctx):
